@@ -220,7 +220,8 @@ def run_trees(ctx):
 def run(ctx):
     ctx.note('rule', 'one case = one linear operator instance (class x construction variant x space: real/complex, none/'
                      'const/array weighting, boundary nodes, product spaces) decided on full bases of domain and range '
-                     '(<= 40 real dimensions); plus seeded random linear expression trees; distinct = distinct recipe '
+                     '(<= 40 real dimensions); plus seeded random linear expression trees; plus 9 arithmetic wrappers per leaf whose '
+                     'adjoint must equal the algebraic rule applied to the leaf adjoint; distinct = distinct recipe '
                      'names / expression texts')
     ctx.note('exempt', list(EXEMPT))
     cov = cover.Cover()
